@@ -120,6 +120,10 @@ def curated(kind="general"):
     L.append(N("All", N("Any", a(), b(), id="B"), N("Any", a(), c(), id="C"), id="A"))
     L.append(N("Any", N("All", N("Any", a(), b(), id="S"), c(), id="B"), N("All", N("Any", a(), b(), id="S"), d(), id="C"), id="A"))
     L.append(N("All", N("Xor", a(), b()), N("Imply", N("Any", a(), b()), c()), id="A"))
+    # compounds without children (validation accepts them): an empty Any can never hold, an empty All always holds
+    L.append(N("All", N("Any", a(), N("Any", id="E"), id="B"), N("Any", b(), c(), id="C"), id="A"))
+    L.append(N("Any", N("All", id="E"), a(), id="A"))
+    L.append(N("Imply", N("Any", a(), N("All", id="E"), id="B"), AL(1, id="F", sign=1), id="A"))
     # deeper
     L.append(N("All", N("Any", N("All", a(), b(), id="D"), c(), id="B"), AL(2, d(), i(), id="C", sign=1), id="A"))
     L.append(AL(1, AM(2, a(), b(), c(), id="B"), AL(4, i(), j(), id="C", sign=1), id="A", sign=1))
